@@ -324,7 +324,9 @@ def run_check(prop_name, tier, seed):
             tasks.append((prop_name, p["name"], seed * 1000, p["n"], tier, 0, 1))
     # longest first
     mpctx = mp.get_context("spawn")
-    with mpctx.Pool(min(N_WORKERS, max(1, len(tasks))), maxtasksperchild=None) as pool:
+    # a property whose workers must set the environment before importing elexmodel asks for one process per task
+    fresh = 1 if getattr(mod, "FRESH_PROCESS_PER_TASK", False) else None
+    with mpctx.Pool(min(N_WORKERS, max(1, len(tasks))), maxtasksperchild=fresh) as pool:
         outs = []
         for o in pool.imap_unordered(_worker, tasks, chunksize=1):
             outs.append(o)
